@@ -83,6 +83,10 @@ type Model struct {
 	MaybePruned map[Hash]bool
 	// Dropped: side-branch headers that a Load may legitimately not have restored.
 	MaybeDropped map[Hash]bool
+	// TrimTip: headers that invalid-marking made the last header of their branch although they still
+	// have held children on other branches: the next child extends that branch (no new fork, so no
+	// depth rule) until one is accepted.
+	TrimTip map[Hash]bool
 	// HookPruned: a caller-chosen (small) prune depth was applied; branch bases are then arbitrary.
 	HookPruned   bool
 	TwinDiverged bool
@@ -98,7 +102,10 @@ func NewModel(genesis *wire.BlockHeader, maxDepth int) *Model {
 
 func (m *Model) Clone() *Model {
 	c := &Model{Nodes: map[Hash]*Node{}, Ever: map[Hash]*Node{}, Invalid: map[Hash]bool{},
-		MaxDepth: m.MaxDepth, seq: m.seq, HookPruned: m.HookPruned, MaybePruned: map[Hash]bool{}, MaybeDropped: map[Hash]bool{}}
+		MaxDepth: m.MaxDepth, seq: m.seq, HookPruned: m.HookPruned, MaybePruned: map[Hash]bool{}, MaybeDropped: map[Hash]bool{}, TrimTip: map[Hash]bool{}}
+	for k, v := range m.TrimTip {
+		c.TrimTip[k] = v
+	}
 	// copy nodes preserving structure
 	old2new := map[*Node]*Node{}
 	var order []*Node
@@ -163,6 +170,7 @@ func (m *Model) Accept(hd *wire.BlockHeader) *Node {
 	n := &Node{Hash: h, Header: hd, Parent: p, Height: p.Height + 1,
 		Cum: new(big.Int).Add(p.Cum, WorkOfBits(hd.Bits)), Seq: m.seq}
 	p.Children = append(p.Children, n)
+	delete(m.TrimTip, p.Hash)
 	m.Nodes[h] = n
 	m.Ever[h] = n
 	return n
